@@ -521,6 +521,7 @@ class Instance:
     entity: str
     arch: str | None
     portmap: list           # [(formal, actual expr)]
+    lib: str = "work"       # library prefix of the instantiated unit ("entity lib.name")
 
 
 @dataclass
@@ -533,6 +534,7 @@ class Entity:
     scope: Scope = None
     names: list = field(default_factory=list)  # every declared identifier with its region: (region, kind, name)
     type_decls: list = field(default_factory=list)
+    libraries: list = field(default_factory=list)   # library clauses of the unit's context clause (besides ieee)
 
 
 FUNC_LINES = [
@@ -579,14 +581,20 @@ class LibraryParser:
         return self.entities
 
     def parse_entity(self):
+        libs = []
         while self.peek() is not None and (self.peek().lower().startswith("library ") or self.peek().lower().startswith("use ")):
             l = self.next().lower()
+            ml = re.fullmatch(r"library\s+(\w+)\s*;", l)
+            if ml and ml.group(1) != "ieee":
+                libs.append(ml.group(1))      # a library clause only makes the library name visible
+                continue
             if l not in ("library ieee;", "use ieee.std_logic_1164.all;", "use ieee.numeric_std.all;"):
                 raise Unparsed("unsupported context clause", l)
         m = re.fullmatch(r"entity\s+(\w+)\s+is", self.next(), re.I)
         if not m:
             raise Unparsed("entity header expected", self.lines[self.i - 1])
         ent = Entity(m.group(1), [])
+        ent.libraries = libs
         ent.scope = Scope()
         ent.names.append(("library", "entity", ent.name))
         if self.peek().lower() == "port (":
@@ -730,8 +738,6 @@ class LibraryParser:
 
     def parse_instance(self, ent, m, l):
         label, lib, name, arch = m.group(1), m.group(2), m.group(3), m.group(4)
-        if lib.lower() != "work":
-            raise Unparsed("instance of an external entity", l)
         ent.names.append(("arch", "label", label))
         portmap = []
         if self.peek().lower().startswith("generic map"):
@@ -755,7 +761,7 @@ class LibraryParser:
                         raise Unparsed("unsupported formal designator", a)
                     portmap.append((formal, parse_expr(a[k + 2:], ent.scope, a), None))
             self.next()
-        ent.conc.append(Instance(label, name, arch, portmap))
+        ent.conc.append(Instance(label, name, arch, portmap, lib.lower()))
 
     def parse_process(self, ent, label, sens_s, l):
         ent.names.append(("arch", "label", label))
@@ -1032,6 +1038,8 @@ def elaborate(entities, top=None, clk="clk"):
                         sens.append(ren[s.lower()])
                 d.conc.append(("proc", plabel, sens, _subst_stmts(c.body, pren, sub)))
             elif isinstance(c, Instance):
+                if c.lib != "work":
+                    raise Unparsed("instance of an external entity", c.label)
                 child = by_name.get(c.entity.lower())
                 if child is None:
                     raise Unparsed(f"instance of unknown entity {c.entity}")
